@@ -469,6 +469,11 @@ def _ceil_div(e):
 def _terms(ctx, f, e, depth=0):
     if isinstance(e, ast.BinOp) and isinstance(e.op, ast.Add):
         return _terms(ctx, f, e.left, depth) + _terms(ctx, f, e.right, depth)
+    if isinstance(e, ast.IfExp):
+        # a summand present in some cases only: `n if .. else 0`
+        return _terms(ctx, f, e.body, depth) + _terms(ctx, f, e.orelse, depth)
+    if isinstance(e, ast.Constant) and e.value == 0:
+        return []
     if isinstance(e, ast.Name) and depth < 3 and ctx is not None:
         v = pat.single_def(ctx, f, e)
         if v is not None:
